@@ -4,7 +4,8 @@ World C: one real ClientSession against 1-3 scripted raw origins that may
 misbehave (surplus / unsolicited responses and fragments, early responses to
 uploads, truncation, close, reset, stall, FIN or junk while the connection
 idles in the pool; also well-behaved: interim 1xx responses before a later final response; HTTP/1.0 answers with or
-without keep-alive and 'Connection: close' followed by a lingering close), directly or through scripted forwarding proxies (absolute
+without keep-alive and 'Connection: close' followed by a lingering close; coded (deflate/gzip) bodies, well-formed or
+undecodable inside a complete framing), directly or through scripted forwarding proxies (absolute
 form and CONNECT tunnels) with per-request proxy credentials / TLS settings.
 Every response carries a marker (origin, connection, the request id it answers
 or 'none', serial).  DESIGN.md section 9, C06.
@@ -15,6 +16,7 @@ import asyncio
 import base64
 import random
 import re
+import zlib
 
 from sim.net import SimResolver
 from sim.peers import RawServerConn
@@ -41,7 +43,9 @@ LEVEL_TEXT = (
     "handed to its next request, the peer's complete final answer to the request before it has reached the client (a "
     "response that has not arrived cannot have been read to its end); a connection whose peer announced its end in the "
     "answer the caller was given (HTTP/1.0 without keep-alive, Connection: close) carries no request handed over after that "
-    "answer had arrived. Sampling, not proof."
+    "answer had arrived; a connection that carried a request whose caller got an error - from the request, or from reading "
+    "the response it was given (e.g. a coded body that cannot be decoded inside a complete framing) - carries no request "
+    "after that one (judged at the raw server). Sampling, not proof."
 )
 LEVEL_NOTE = (
     "Trusted: the scripted origins' bookkeeping (what they sent, at which stream offset), SimNet delivery log (arrival "
@@ -74,6 +78,10 @@ RULE = (
     "delimited response (Content-Length, 204, 304) with no Connection header / keep-alive / close, or an HTTP/1.1 origin "
     "saying Connection: close; a peer that announced the end that way reads nothing more from the connection and closes "
     "it 1-300 ms later (lingering close), the task's next request mostly going to the same route at once or around then. "
+    "In 10 % of the runs: coded bodies - a peer answers with Content-Encoding deflate (zlib or raw) or gzip inside a "
+    "complete framing (Content-Length reached / last chunk sent; 40 % ~0.7 kB bodies), the coded stream well-formed, cut "
+    "short at a seeded point or with four bytes overwritten, the connection kept; the task's next request mostly goes to "
+    "the same route 0-10 ms later. "
     "Non-trivial: a connection was reused at least once AND at least one misbehaviour or caller-side abnormal end fired."
 )
 COMPONENTS = {
@@ -149,6 +157,7 @@ def gen(rng, tier, index):
     _gen_routes_and_idle_end(scn, random.Random(rng.getrandbits(64)))
     _gen_interim(scn, random.Random(rng.getrandbits(64)))
     _gen_announced_end(scn, random.Random(rng.getrandbits(64)))
+    _gen_coded(scn, random.Random(rng.getrandbits(64)))
     return scn
 
 
@@ -285,6 +294,59 @@ def _gen_announced_end(scn, rng):
                 nx["gap"] = max(0, rng.choice([0, 0, 0, 1, r["old"]["linger"] - 1, r["old"]["linger"] + 1]))
 
 
+def _gen_coded(scn, rng):
+    """(g) coded bodies: the peer answers with Content-Encoding: deflate (zlib), raw deflate under the same name, or gzip
+    (the session decodes: auto_decompress is the default), the message framing always complete (Content-Length reached /
+    last chunk sent) and the connection kept.  The coded stream inside is well-formed, cut short at a seeded point, or has
+    a few bytes overwritten: a response whose framing is complete and whose content cannot be decoded is a response that
+    failed.  The following request of the same task mostly goes to the same route, at once or a few ms later."""
+    if rng.random() >= 0.10:
+        return
+    nid = 1 + max(r["id"] for reqs in scn["tasks"] for r in reqs)
+    for reqs in scn["tasks"]:
+        i = 0
+        while i < len(reqs):
+            r = reqs[i]
+            i += 1
+            if (r["beh"].split(":")[0] not in ("ok", "chunked", "slowbody") or r.get("up") or r.get("interim") or r.get("old")
+                    or rng.random() >= 0.6):
+                continue
+            r["coded"] = {"enc": rng.choice(["deflate", "deflate", "deflate", "gzip", "rawdeflate"]),
+                          "dmg": rng.choice([None, "cut", "cut", "cut", "flip"]), "at": rng.randrange(1000),
+                          "big": rng.random() < 0.4}
+            r["total"] = None
+            if rng.random() < 0.8:
+                r["after"] = "read"
+            if i == len(reqs) and nid < 15 and rng.random() < 0.7:
+                reqs.append({"id": nid, "origin": r["origin"], "beh": "ok", "after": "read", "gap": 0, "post": False,
+                             "total": None})
+                nid += 1
+            if i < len(reqs) and rng.random() < 0.8:
+                nx = reqs[i]
+                nx["origin"] = r["origin"]
+                for f in ("via", "tls"):
+                    nx.pop(f, None)
+                    if f in r:
+                        nx[f] = dict(r[f])
+                nx["gap"] = rng.choice([0, 0, 0, 1, 3, 10])
+
+
+_ENC = {"deflate": "d", "rawdeflate": "r", "gzip": "g"}
+_ENC_WBITS = {"deflate": 15, "rawdeflate": -15, "gzip": 31}
+
+
+def _encode_body(body, coded):
+    """the bytes a peer puts on the wire for `body` under the content coding `coded` describes (damage included)"""
+    co = zlib.compressobj(6, zlib.DEFLATED, _ENC_WBITS[coded["enc"]])
+    wire = co.compress(body) + co.flush()
+    if coded["dmg"] == "cut":
+        wire = wire[:1 + coded["at"] * (len(wire) - 1) // 1000]  # 1 .. len-1 bytes of it
+    elif coded["dmg"] == "flip":
+        k = 2 + coded["at"] * (len(wire) - 2) // 1000
+        wire = wire[:k] + b"\xff\x00\xff\x00"[:len(wire) - k] + wire[k + 4:]
+    return wire
+
+
 def _announces_end(old):
     """the answer says that the peer will not serve this connection any further (RFC 9112, 9.3 and 9.6)"""
     return old["conn"] == "close" or (old["ver"] == "1.0" and old["conn"] != "ka")
@@ -310,7 +372,7 @@ def shrink(scn):
                     yield dict(scn, tasks=ts[:ti] + [reqs[:i] + [dict(r, **{k: v})] + reqs[i + 1:]] + ts[ti + 1:])
             if r["beh"] not in ("ok",):
                 yield dict(scn, tasks=ts[:ti] + [reqs[:i] + [dict(r, beh="ok", total=None)] + reqs[i + 1:]] + ts[ti + 1:])
-            for f in ("via", "tls", "yields", "interim", "old"):
+            for f in ("via", "tls", "yields", "interim", "old", "coded"):
                 if r.get(f):
                     yield dict(scn, tasks=ts[:ti] + [reqs[:i] + [{k: v for k, v in r.items() if k != f}] + reqs[i + 1:]] + ts[ti + 1:])
             via = r.get("via")
@@ -323,6 +385,11 @@ def shrink(scn):
                 for k, v in (("status", 200), ("linger", 8), ("conn", None), ("ver", "1.0")):
                     if old[k] != v:
                         yield dict(scn, tasks=ts[:ti] + [reqs[:i] + [dict(r, old=dict(old, **{k: v}))] + reqs[i + 1:]] + ts[ti + 1:])
+            cod = r.get("coded")
+            if cod:
+                for k, v in (("big", False), ("enc", "deflate"), ("dmg", "cut"), ("at", 500)):
+                    if cod[k] != v and not (k == "dmg" and cod[k] is None):
+                        yield dict(scn, tasks=ts[:ti] + [reqs[:i] + [dict(r, coded=dict(cod, **{k: v}))] + reqs[i + 1:]] + ts[ti + 1:])
             it = r.get("interim")
             if it:
                 if len(it["codes"]) > 1:
@@ -445,7 +512,7 @@ def _run(scn, ch, log, connector_mod, BaseConn):
                 c.waiting = []
 
             def respond(self, c, req_tag, kind, body=b"", chunked=False, extra_hdr=b"", declared=None, status=200,
-                        reason=b"OK", version=b"1.1"):
+                        reason=b"OK", version=b"1.1", coded=None):
                 serial[0] += 1
                 n = serial[0]
                 marker = b"X-M: o%d.c%d.q%s.n%d" % (c.oidx, c.cid, str(req_tag).encode(), n)
@@ -457,18 +524,29 @@ def _run(scn, ch, log, connector_mod, BaseConn):
                     msgs[n] = {"status": status, "reason": reason.decode(), "body": b"", "size": len(head),
                                "headers": [(b"X-M", marker[5:])] + [tuple(h.split(b": ", 1)) for h in extra_hdr.split(b"\r\n") if h]}
                     return n, head, payload
+                wire = body
+                if coded:
+                    # a coded body: the framing below is that of the coded bytes and is always complete
+                    if coded["big"]:
+                        body = body + b"-" + random.Random(n).randbytes(600).hex().encode()
+                    wire = _encode_body(body, coded)
+                    extra_hdr = extra_hdr + b"Content-Encoding: %s\r\n" % (b"gzip" if coded["enc"] == "gzip" else b"deflate")
                 if chunked:
                     head = line + marker + b"\r\nTransfer-Encoding: chunked\r\n" + extra_hdr + b"\r\n"
-                    payload = b"%x\r\n%s\r\n0\r\n\r\n" % (len(body), body)
+                    parts = [wire[:len(wire) // 2], wire[len(wire) // 2:]] if coded and len(wire) > 3 else [wire]
+                    payload = b"".join(b"%x\r\n%s\r\n" % (len(p_), p_) for p_ in parts) + b"0\r\n\r\n"
                     fr = (b"Transfer-Encoding", b"chunked")
                 else:
-                    dl = len(body) if declared is None else declared
+                    dl = len(wire) if declared is None else declared
                     head = line + marker + b"\r\nContent-Length: %d\r\n" % dl + extra_hdr + b"\r\n"
-                    payload = body
+                    payload = wire
                     fr = (b"Content-Length", b"%d" % dl)
                 # what exactly this message says, for the comparison with what the caller is given
                 msgs[n] = {"status": status, "reason": reason.decode(), "body": body, "size": len(head) + len(payload),
                            "headers": [(b"X-M", marker[5:]), fr] + [tuple(h.split(b": ", 1)) for h in extra_hdr.split(b"\r\n") if h]}
+                if coded:
+                    msgs[n]["coded"] = coded["enc"] + (":" + coded["dmg"] if coded["dmg"] else "")
+                    msgs[n]["damaged"] = bool(coded["dmg"])
                 return n, head, payload
 
             def send(self, c, n, data, req_tag, kind):
@@ -530,6 +608,10 @@ def _run(scn, ch, log, connector_mod, BaseConn):
                                        "early": opts.get("e"), "edelay": int(opts.get("d", "0")),
                                        "interim": [int(x) for x in opts["i"].split(".")] if opts.get("i") else [],
                                        "idelay": int(opts.get("w", "0")), "ihdr": opts.get("h") == "1",
+                                       "coded": ({"enc": {v: k for k, v in _ENC.items()}[opts["z"].split(".")[0]],
+                                                  "dmg": {"n": None, "c": "cut", "f": "flip"}[opts["z"].split(".")[1]],
+                                                  "at": int(opts["z"].split(".")[2]), "big": opts["z"].split(".")[3] == "1"}
+                                                 if opts.get("z") else None),
                                        "old": ({"ver": {"10": "1.0", "11": "1.1"}[opts["v"]], "conn": {"n": None, "ka": "ka", "cl": "close"}[opts["k"]],
                                                 "status": int(opts["s"]), "linger": int(opts["l"])} if opts.get("v") else None)}
                         info["framed"].append(cur)
@@ -672,7 +754,14 @@ def _run(scn, ch, log, connector_mod, BaseConn):
                                 c.transport.close()
                             loop.sim_call_later(old["linger"] * 0.001, close_linger)
                         return
-                    n, head, payload = self.respond(c, rid, "answer", chunked=chunked, extra_hdr=extra, status=st[0], reason=st[1])
+                    coded = cur.get("coded") if cur is not None and not early else None
+                    if coded:
+                        probes["coded_answers"] = probes.get("coded_answers", 0) + 1
+                        if coded["dmg"]:
+                            probes["coded_answers_damaged"] = probes.get("coded_answers_damaged", 0) + 1
+                            probes["misbehaviour"] += 1
+                    n, head, payload = self.respond(c, rid, "answer", chunked=chunked, extra_hdr=extra, status=st[0], reason=st[1],
+                                                    coded=coded)
                     if beh == "slowbody":
                         self.send(c, n, head, rid, "answer")
                         loop.sim_call_later(arg * 0.001, self.send, c, n, payload, rid, "answer")
@@ -882,6 +971,7 @@ def _run(scn, ch, log, connector_mod, BaseConn):
         loop.run_sim(setup(), vt_cap=1)
         session = state["session"]
         outcomes = {}
+        failed = {}  # reqid -> (phase, exception type, step): the caller's request / reading of the response raised
         got = {}  # reqid -> status, reason, raw headers of the response the caller was given
 
         async def one(r):
@@ -933,12 +1023,17 @@ def _run(scn, ch, log, connector_mod, BaseConn):
             if old:
                 url += ("&" if "?" in url else "?") + (f"v={old['ver'].replace('.', '')}&k={ {None: 'n', 'ka': 'ka', 'close': 'cl'}[old['conn']] }"
                                                        f"&s={old['status']}&l={old['linger']}")
+            cod = r.get("coded")
+            if cod:
+                url += ("&" if "?" in url else "?") + (f"z={_ENC[cod['enc']]}.{ {None: 'n', 'cut': 'c', 'flip': 'f'}[cod['dmg']] }"
+                                                       f".{cod['at']}.{int(cod['big'])}")
             try:
                 resp = await meth(url, **kw)
             except asyncio.CancelledError:
                 raise
             except Exception as e:
                 outcomes[r["id"]] = ("error", type(e).__name__)
+                failed[r["id"]] = ("request", type(e).__name__, loop.steps)
                 return
             m = _M.search(b"X-M: " + resp.headers.get("X-M", "").encode("latin-1"))
             delivered[r["id"]] = tuple(m.groups()) if m else None
@@ -972,6 +1067,7 @@ def _run(scn, ch, log, connector_mod, BaseConn):
                 raise
             except Exception as e:
                 outcomes[r["id"]] = ("body_error", type(e).__name__)
+                failed[r["id"]] = ("body", type(e).__name__, loop.steps)
 
         async def worker(reqs):
             for r in reqs:
@@ -1106,7 +1202,8 @@ def _run(scn, ch, log, connector_mod, BaseConn):
             if q == str(rid) and msg is not None and g is not None and ent is not None and ho is not None and cid in conns:
                 diff = [k for k in ("status", "reason", "headers") if g[k] != msg[k]]
                 oc = outcomes.get(rid)
-                if oc is not None and oc[0] == "resp_read" and r["beh"] not in ("trunc", "reset_mid") and oc[2] != msg["body"]:
+                if (oc is not None and oc[0] == "resp_read" and r["beh"] not in ("trunc", "reset_mid") and not msg.get("damaged")
+                        and oc[2] != msg["body"]):
                     diff.append("body")
                 if diff:
                     before = sum(len(chunk) for step, chunk in conns[cid]["ctr"].recv_log if step < ho[0])
@@ -1245,6 +1342,24 @@ def _run(scn, ch, log, connector_mod, BaseConn):
                     if rid in rl and rl.index(rid) < len(rl) - 1:
                         violate("no_reuse_after_abnormal", "reused_after_timeout",
                                 f"request {rid} timed out on c{cid}, which then carried request {rl[rl.index(rid) + 1]}")
+        # a connection whose response failed is not reused: when the caller's request raised, or reading the response it
+        # was given raised (the peer's message could not be decoded, was cut short, ...), the raw server must not see
+        # another request after that one on a connection that carried it (timeouts before the response: rule above)
+        for rid, (phase, ename, fstep) in sorted(failed.items()):
+            if phase == "request" and ename in ("TimeoutError", "ServerTimeoutError", "SocketTimeoutError"):
+                continue
+            for cid in sorted(conns):
+                rl = [q[0] for q in conns[cid]["requests"]]
+                if rid in rl and rl.index(rid) < len(rl) - 1:
+                    probes["failed_then_reused"] = probes.get("failed_then_reused", 0) + 1
+                    mk = delivered.get(rid)
+                    what = msgs.get(int(mk[3]), {}).get("coded") if mk is not None else None
+                    violate("no_reuse_after_abnormal", f"reused_after_failed_response:{phase}:{ename}",
+                            f"request {rid} failed ({ename} while {'reading the response' if phase == 'body' else 'waiting for the response'}"
+                            f", step {fstep})" + (f" - the peer's answer had a {what} body inside a complete framing" if what else "")
+                            + f" on connection c{cid}, which then carried request {rl[rl.index(rid) + 1]}")
+            if rid in failed and any(rid in [q[0] for q in conns[cid]["requests"]] for cid in conns):
+                probes["failed_on_a_connection"] = probes.get("failed_on_a_connection", 0) + 1
         if loop.exc_contexts:
             c0 = loop.exc_contexts[0]
             violate("loop_exception", f"{c0['exc_type']}@{c0.get('frame')}:{c0['message'][:40]}",
